@@ -16,3 +16,22 @@ class format_column:
 
     def ensures(col, max_preview, result):
         return len(result) == S.preview_rows(len(col._underlying), max_preview)
+
+
+def _dtype_text(v):
+    if v._dtype is None:
+        return 'object'
+    if v._dtype.nullable:
+        return v._dtype.kind.__name__ + '?'
+    return v._dtype.kind.__name__
+
+
+@contract('serif.display._footer', props=['C20'])
+class footer_vector:
+    """C20: a vector's footer states the true element count and the true dtype with nullability
+    (an empty vector is a 0 element vector)."""
+    params = {'pv': 'vector', 'dtype_list': 'none', 'truncated': 'bool', 'shown': 'int'}
+    total = True
+
+    def returns(pv):
+        return '# ' + str(len(pv._underlying)) + ' element vector <' + _dtype_text(pv) + '>'
